@@ -29,7 +29,7 @@ RULE = ('every (class, family size) with n <= bound whose half-weight table sum_
         'evaluations = table entries enumerated; every deformed version of a covered code must report the same d; '
         'per-class sessions repeat the search for several sizes in one process')
 ASSUMPTIONS = ['listed logical operators are valid (C01)', 'GF(2) reference mc/gf2.py']
-BOUNDS = {'quick': {'max_n': 200, 'l_max_2d': 7, 'l_max_3d': 4, 'cap': 400000},
+BOUNDS = {'quick': {'max_n': 200, 'l_max_2d': 7, 'l_max_3d': 6, 'cap': 400000},
           'thorough': {'max_n': 400, 'l_max_2d': 9, 'l_max_3d': 6, 'cap': 3000000}}
 
 
